@@ -71,6 +71,15 @@ def _worker(task):
                 discharge(ob, tier)
                 rec = {"name": ob.name, "kind": ob.kind, "status": ob.status, "time": round(ob.time, 4),
                        "backend": ob.backend, "text": ob.text, "line": ob.line, "detail": ob.detail}
+                if ob.status in ("failed", "unknown") and ob.regions:
+                    # known-finding regions: is the failure confined to a recorded region of the pre-state?
+                    import z3 as _z3
+                    from pyvc.engine import Obligation as _Ob
+                    rec["outside_region"] = {}
+                    for fid, term in ob.regions.items():
+                        ob2 = _Ob(ob.name, ob.kind, list(ob.pc) + [_z3.Not(term)], ob.goal)
+                        discharge(ob2, tier, want_model=False)
+                        rec["outside_region"][fid] = ob2.status
                 if ob.status == "failed":
                     rec["model"] = ob.model
                     try:
